@@ -817,6 +817,7 @@ func plRun(job plJob) (res plResult) {
 	}
 	// phase 2: data, interleaved
 	next := 0
+	var backlogSent chan struct{} // closed when the receive loop has handed everything over
 	if job.Backlog {
 		// everything has been received (the Recv events, in order) and the receive loop hands the datagrams over one after
 		// the other: it blocks as soon as the queue is full and goes on whenever a worker takes one
@@ -836,6 +837,7 @@ func plRun(job plJob) (res plResult) {
 			todo = append(todo, pending{&net.UDPAddr{IP: plBytes(d.Exp), Port: 4000}, b[:len(body)]})
 		}
 		sent := make(chan struct{})
+		backlogSent = sent
 		go func() {
 			for _, p := range todo {
 				ad.send(p.r, p.b)
@@ -853,6 +855,17 @@ func plRun(job plJob) (res plResult) {
 		lazy = 1
 	}
 	for guard := 0; guard < 200000; guard++ {
+		if backlogSent != nil {
+			// the receive loop is blocked on the full queue: let it run whenever it can (on one processor the scheduler
+			// and the worker it has just released hand the processor to each other and the loop would starve), so that
+			// the queue is full again - as it is in the collector - when the worker looks at it
+			select {
+			case <-backlogSent:
+				backlogSent = nil
+			default:
+				runtime.Gosched()
+			}
+		}
 		ps := parked()
 		busy := false
 		for _, w := range ps {
